@@ -24,7 +24,7 @@ from hplsim import build, core, gen, seams, simio
 PROP = 'C19'
 
 TIERS = {
-    'quick': dict(runs=224, wall=160, sweep_max=16, pairs=3),
+    'quick': dict(runs=224, wall=300, sweep_max=16, pairs=3),
     'thorough': dict(runs=6000, wall=2400, sweep_max=60, pairs=8),
 }
 
